@@ -1,6 +1,7 @@
 package chainkit
 
 import (
+	"bytes"
 	"github.com/nspcc-dev/neo-go/pkg/core/native/noderoles"
 	"pgregory.net/rapid"
 	"verifharness/vt"
@@ -26,6 +27,13 @@ var keyAlphabet = []byte{0x00, 0x01, 0x10, 0xff, 'a', 'b'}
 // GenStorageKey draws a short storage key from a tiny alphabet (so deletes and overwrites hit).
 func GenStorageKey(t *rapid.T, label string) vt.Bytes {
 	n := rapid.IntRange(0, 3).Draw(t, label+"_n")
+	if rapid.IntRange(0, 11).Draw(t, label+"_long") == 0 {
+		// around the maximum key length of a contract (64 bytes; 65 is refused by System.Storage.Put)
+		n = rapid.SampledFrom([]int{62, 63, 64, 64, 64, 65}).Draw(t, label+"_nlong")
+		k := bytes.Repeat([]byte{rapid.SampledFrom(keyAlphabet).Draw(t, label+"_fill")}, n)
+		k[n-1] = rapid.SampledFrom(keyAlphabet).Draw(t, label+"_last")
+		return k
+	}
 	k := make([]byte, n)
 	for i := range k {
 		k[i] = rapid.SampledFrom(keyAlphabet).Draw(t, label+"_b")
